@@ -20,6 +20,7 @@ RULE = (
 )
 ASSUMPTIONS = ["NumPy scalar attribute values are accepted as plain scalars"]
 BUDGET = {"quick": 120, "thorough": 1500}
+JOBS = {"quick": 4, "thorough": 16}
 
 OK_KINDS = set("biufcMmUT")
 SCALARS = (bool, int, float, str, np.bool_, np.integer, np.floating, np.str_)
@@ -42,7 +43,7 @@ def cases(draw):
 
 
 def plan(tier):
-    n = 110 if tier == "quick" else 16000
+    n = 360 if tier == "quick" else 16000
     return [{"kind": "hyp", "name": "products", "strategy": cases(), "examples": n}]
 
 
